@@ -310,10 +310,7 @@ func (g *Gen) recvCase(ok [rcN]bool, module bool, usedPool *[][2]uint64) {
 		if g.chance(0.5) {
 			n = g.pick(300)
 		}
-		rcp := g.rand32()
-		if g.chance(0.2) {
-			rcp = pad32(types.ModuleAddress[1:]) // almost the module
-		}
+		rcp := g.otherRecipient()
 		msg = buildMessage(version, src, dest, nonce, g.rand32(), rcp, caller, g.randBytes(n))
 	}
 	if !ok[rcLen] {
@@ -450,7 +447,7 @@ func (g *Gen) depCase(ok [dcN]bool, withCaller bool, limit *big.Int) {
 	if !ok[dcBodyFits] {
 		g.tx("UpdateMaxMessageBodySize", newKV().set("from", hs(owner)).set("size", fmt.Sprint([]int{0, 1, 131}[g.pick(3)])))
 	} else {
-		g.tx("UpdateMaxMessageBodySize", newKV().set("from", hs(owner)).set("size", fmt.Sprint([]int{132, 133, 8000}[g.pick(3)])))
+		g.tx("UpdateMaxMessageBodySize", newKV().set("from", hs(owner)).set("size", fmt.Sprint(append([]uint64{132, 133, 8000}, u64Edges...)[g.pick(3+len(u64Edges))])))
 	}
 	if !ok[dcBurnUnpaused] {
 		g.pauseTx("BurningAndMinting", true)
@@ -618,7 +615,8 @@ func scnDepMatrix(g *Gen, budget int, arg string) {
 // reservation) with replacements, from several starting counters.
 
 func scnNonces(g *Gen, budget int, arg string) {
-	starts := []string{"0:0", "0:7", "9:4294967296", "0:18446744073709551614", "3:18446744073709551615"}
+	starts := []string{"0:0", "0:7", "9:4294967296", "0:18446744073709551614", "3:18446744073709551615",
+		"0:2147483646", "0:4294967294", "0:4294967295", "0:9223372036854775806"}
 	for g.nOps < budget {
 		g.config()
 		for i := range g.acctRaw {
@@ -796,7 +794,7 @@ func (g *Gen) validFlow(i int) {
 		msg := g.inboundBurn(0, g.freshNonce(0), big.NewInt(int64(1+g.pick(1000))), g.pick(len(g.acctRaw)))
 		g.tx("ReceiveMessage", g.opReceive(from, msg, attOpts{}))
 	case 5: // receive of a message for somebody else
-		msg := buildMessage(0, 0, 4, g.freshNonce(0), g.rand32(), g.rand32(), make([]byte, 32), g.randBytes(g.pick(100)))
+		msg := buildMessage(0, 0, 4, g.freshNonce(0), g.rand32(), g.otherRecipient(), make([]byte, 32), g.randBytes(g.pick(100)))
 		g.tx("ReceiveMessage", g.opReceive(from, msg, attOpts{}))
 	case 6, 7:
 		g.validReplace(i == 7)
@@ -972,7 +970,7 @@ func scnFaults(g *Gen, budget int, arg string) {
 				msg := g.inboundBurn(0, g.freshNonce(0), big.NewInt(int64(1+g.pick(1000))), g.pick(len(g.acctRaw)))
 				g.tx("ReceiveMessage", g.opReceive(from, msg, attOpts{}).set("faults", plan))
 			default:
-				msg := buildMessage(0, 0, 4, g.freshNonce(0), g.rand32(), g.rand32(), make([]byte, 32), g.randBytes(g.pick(100)))
+				msg := buildMessage(0, 0, 4, g.freshNonce(0), g.rand32(), g.otherRecipient(), make([]byte, 32), g.randBytes(g.pick(100)))
 				g.tx("ReceiveMessage", g.opReceive(from, msg, attOpts{}).set("faults", plan))
 			}
 		}
